@@ -14,7 +14,7 @@ from pyvc.verify import Contract
 ASSUMPTIONS = ["npstructures.util.unsafe_extend_right/left append/prepend one zero element (as in the installed version)",
                "EncodedRaggedArray(data, lengths) rows are consecutive; ragged[:, :-1] drops the last element of every row"]
 NOT_PROVED = ["the indexing / comparison / assignment / concatenation protocol of EncodedArray and EncodedRaggedArray over operation programs "
-              "(delegation to npstructures and re-wrapping): bounded (rtc/enum_c07.py)", "join, str_equal, ragged_slice: bounded"]
+              "(delegation to npstructures and re-wrapping): bounded (rtc/enum_c07.py)", "str_equal, util.ragged_slice: bounded (strops.join is proved below)"]
 
 
 class St(types.SimpleNamespace):
